@@ -249,11 +249,1220 @@ static size_t ref_trim_set(unsigned char c, char const *set, size_t n)
     return c == ' ' || (c >= '\t' && c <= '\r');
 }
 
+/* ====================================================================================================
+ * LARGE-SIZE / LONG-HISTORY case class (every LSTRIDE-th case number; odd strides so the large cases spread over
+ * all workers). The small workload above never leaves lengths of a few hundred bytes; this class drives the same
+ * API to lengths through every power of two 2^k and 2^k +- 1/2 for k <= 16 in quick (65534..65538 bytes) and
+ * k <= 20 in thorough (1048574..1048578 bytes) - by single bytes, by blocks and by formatted appends - and back
+ * down again, with a byte-array model of its own (heap, unbounded) compared COMPLETELY (length, length <= capacity,
+ * every byte, terminator) after every structural operation and at checkpoints 2^k-2 .. 2^k+2 inside single-byte runs
+ * (between the checkpoints every call is still judged in O(1): return value, length, capacity, terminator, last 16 bytes).
+ *
+ * Allocation: the library's public hook a_alloc is pointed at la_alloc for the duration of a large case. la_alloc calls
+ * the library's own default a_alloc_ (so that code stays under test) and then fills the GROWN part of the block with
+ * 0xA5. malloc memory is indeterminate by contract; ASan only pattern-fills the first 4096 bytes of a block and fresh
+ * pages are zero, so without this a terminator that is never written at a large offset would be "present" by luck.
+ * All library-visible source/destination buffers are exact-size malloc blocks (ASan red zone at the first byte past).
+ *
+ * Bounds. quick: kmax = 16, single-byte run 0 .. 65545+; thorough: kmax = 20, single-byte run 0 .. 65545+ complete and
+ * single-byte windows 2^k-6 .. 2^k+6 for k = 17..20 (a_str grows by exactly 8 bytes per reallocation, so a complete
+ * single-byte run to 2^20 would copy 2^36 bytes). Formatted appends up to 2^kmax+2 bytes in one call.
+ */
+#include <limits.h>
+#define LSTRIDE_QUICK 41u
+#define LSTRIDE_THOROUGH 331u
+#define L_NSCEN 9
+
+typedef struct
+{
+    a_str *s;
+    unsigned char *m; /* model bytes */
+    size_t n, cap;
+    int by_ctor;
+} lmodel;
+static char const *lop = "op";
+static uint64_t lg_salt, lg_ctr;
+static int l_kmax;
+static unsigned char *l_one; /* exact 1-byte block */
+static char *l_cs;           /* exact 2-byte block: 1-character C string */
+
+#define LFAIL(clause, ...)                                                 \
+    do {                                                                   \
+        char key_[128];                                                    \
+        snprintf(key_, sizeof(key_), "str_%s/%s/large", lop, clause);      \
+        vf_viol(key_, __VA_ARGS__);                                        \
+    } while (0)
+
+/* ---- allocation hook: default allocator + junk in every grown region */
+#define LA_SLOTS 16
+static struct { void *p; size_t n; } la_tab[LA_SLOTS];
+static void *(*la_prev)(void *, a_size);
+static void *la_alloc(void *addr, a_size size)
+{
+    int slot = -1;
+    size_t old = 0;
+    void *p;
+    if (addr)
+    {
+        for (int i = 0; i < LA_SLOTS; ++i)
+        {
+            if (la_tab[i].p == addr) { slot = i; old = la_tab[i].n; break; }
+        }
+    }
+    p = la_prev(addr, size);
+    if (size == 0)
+    {
+        if (slot >= 0) { la_tab[slot].p = NULL; la_tab[slot].n = 0; }
+        return p;
+    }
+    if (!p) { return p; }
+    if (addr && slot < 0) { return p; } /* block from before the hook: old size unknown, leave it alone */
+    if (slot < 0)
+    {
+        for (int i = 0; i < LA_SLOTS; ++i)
+        {
+            if (!la_tab[i].p) { slot = i; break; }
+        }
+    }
+    if (slot >= 0) { la_tab[slot].p = p; la_tab[slot].n = size; }
+    if (size > old)
+    {
+        memset((char *)p + old, 0xA5, size - old);
+        VF_COUNT("large-alloc-grown-region-junk-filled");
+    }
+    return p;
+}
+static void la_install(void)
+{
+    memset(la_tab, 0, sizeof(la_tab));
+    la_prev = a_alloc;
+    a_alloc = la_alloc;
+}
+static void la_remove(void) { a_alloc = la_prev; }
+
+/* ---- content generator: position-independent pseudo-random bytes, specials over-represented */
+static inline unsigned char lbyte(void)
+{
+    static unsigned char const special[8] = {0x00, 0x7F, 0x80, 0xFF, ' ', '\t', '\n', '%'};
+    uint64_t z = vf_hash64(lg_salt, ++lg_ctr);
+    return (z & 7) == 0 ? special[(z >> 3) & 7] : (unsigned char)(z >> 32);
+}
+static void lfill(unsigned char *b, size_t n, int nonzero)
+{
+    for (size_t i = 0; i < n; ++i)
+    {
+        unsigned char v = lbyte();
+        if (nonzero && !v) { v = (unsigned char)(1 + i % 251); }
+        b[i] = v;
+    }
+}
+
+/* ---- model */
+static void lm_room(lmodel *x, size_t total)
+{
+    if (total > x->cap)
+    {
+        size_t c = x->cap ? x->cap : 1024;
+        while (c < total) { c *= 2; }
+        x->m = (unsigned char *)realloc(x->m, c);
+        if (!x->m) { fprintf(stderr, "h_str: out of memory for the large model\n"); exit(2); }
+        x->cap = c;
+    }
+}
+static void lm_append(lmodel *x, void const *b, size_t n)
+{
+    lm_room(x, x->n + n);
+    if (n) { memcpy(x->m + x->n, b, n); }
+    x->n += n;
+}
+static void l_new(lmodel *x, int by_ctor)
+{
+    memset(x, 0, sizeof(*x));
+    x->by_ctor = by_ctor;
+    if (by_ctor)
+    {
+        x->s = (a_str *)malloc(sizeof(a_str));
+        memset(x->s, 0x5A, sizeof(a_str));
+        a_str_ctor(x->s);
+    }
+    else { x->s = a_str_new(); }
+}
+static void l_die(lmodel *x, int alive)
+{
+    if (alive)
+    {
+        if (x->by_ctor)
+        {
+            a_str_dtor(x->s);
+            if (a_str_ptr(x->s) || a_str_len(x->s) || a_str_mem(x->s)) { vf_viol("str_dtor/object-not-empty/large", "ptr %p len %zu mem %zu after a_str_dtor", (void *)a_str_ptr(x->s), a_str_len(x->s), a_str_mem(x->s)); }
+            free(x->s);
+        }
+        else { a_str_die(x->s); }
+    }
+    free(x->m);
+    x->m = NULL;
+}
+
+static int near_pow2(size_t n)
+{
+    size_t p;
+    if (n < 6) { return 1; }
+    p = (size_t)1 << (63 - __builtin_clzll((unsigned long long)n + 2));
+    return n + 2 >= p && n <= p + 2;
+}
+static int l_log2(size_t n) { return n ? 63 - __builtin_clzll((unsigned long long)n) : -1; }
+
+/* ---- monitors */
+static int lcheck_head(lmodel *x, int term)
+{
+    a_str *s = x->s;
+    char *p = a_str_ptr(s);
+    size_t len = a_str_len(s), mem = a_str_mem(s);
+    if (len != x->n) { LFAIL("length", "library length %zu, model %zu (mem %zu)", len, x->n, mem); return 0; }
+    if (p ? len > mem : (len != 0 || mem != 0)) { LFAIL("length-exceeds-capacity", "len %zu mem %zu ptr %p", len, mem, (void *)p); return 0; }
+    if (term)
+    {
+        if (!p || len >= mem) { LFAIL("no-room-for-terminator", "len %zu mem %zu after a terminating call", len, mem); return 0; }
+        if (p[len] != 0) { LFAIL("not-nul-terminated", "byte after the content is 0x%02x (len %zu mem %zu)", (unsigned char)p[len], len, mem); return 0; }
+    }
+    return 1;
+}
+/* O(1) judgement of one call inside a long single-byte run */
+static int lcheck_step(lmodel *x, int term)
+{
+    size_t t = x->n < 16 ? x->n : 16;
+    VF_COUNT("large-step-checked");
+    if (!lcheck_head(x, term)) { return 0; }
+    if (t && memcmp(a_str_ptr(x->s) + x->n - t, x->m + x->n - t, t) != 0)
+    {
+        size_t i = x->n - t;
+        while ((unsigned char)a_str_ptr(x->s)[i] == x->m[i]) { ++i; }
+        LFAIL("contents", "byte %zu of %zu: library 0x%02x model 0x%02x", i, x->n, (unsigned char)a_str_ptr(x->s)[i], x->m[i]);
+        return 0;
+    }
+    return 1;
+}
+/* complete observable state */
+static int lcheck_full(lmodel *x, int term)
+{
+    char const *p;
+    VF_COUNT("large-full-state-compared");
+    VF_ADD("large-bytes-compared", x->n);
+    if (!lcheck_head(x, term)) { return 0; }
+    p = a_str_ptr(x->s);
+    if (x->n && memcmp(p, x->m, x->n) != 0)
+    {
+        size_t i = 0;
+        while ((unsigned char)p[i] == x->m[i]) { ++i; }
+        LFAIL("contents", "byte %zu of %zu: library 0x%02x model 0x%02x", i, x->n, (unsigned char)p[i], x->m[i]);
+        return 0;
+    }
+    if (x->n >= 4096) { VF_COUNT("large-state-compared-at-len-ge-4096"); }
+    if (x->n >= 65536) { VF_COUNT("large-state-compared-at-len-ge-65536"); }
+    if (x->n >= ((size_t)1 << 20)) { VF_COUNT("large-state-compared-at-len-ge-2^20"); }
+    vf_distinct(vf_hash64(vf_hash_str(lop), 0x4C00u + (uint64_t)(l_log2(x->n) + 1)));
+    return 1;
+}
+
+/* ---- bounded op log inside long runs: every 128 ops the per-op lines are replaced by one summary line */
+static uint32_t run_mark;
+static unsigned run_ops;
+static void run_begin(void)
+{
+    run_mark = vf_log_mark();
+    run_ops = 0;
+}
+static void run_tick(lmodel *x, char const *what)
+{
+    if (++run_ops % 128 == 0)
+    {
+        vf_log_rewind(run_mark);
+        vf_log("  ... %u %s so far in this run (selectors and bytes from the case rng), now len %zu mem %zu", run_ops, what, x->n, a_str_mem(x->s));
+    }
+}
+
+/* ---- one small append (1 byte; with multi: a code point of up to 6 bytes) */
+static int l_cat1(lmodel *x, vf_rng *r, int multi)
+{
+    unsigned sel = (unsigned)vf_below(r, multi ? 10 : 8);
+    unsigned char b = lbyte(), enc[8];
+    size_t len = x->n, mem = a_str_mem(x->s);
+    unsigned en;
+    int rc, term = 1;
+    switch (sel)
+    {
+    case 0: case 1:
+        lop = "catc";
+        vf_log("catc 0x%02x (len %zu mem %zu)", b, len, mem);
+        rc = a_str_catc(x->s, b);
+        if (rc != b) { LFAIL("return-value", "returned %d for character %d at len %zu", rc, b, len); return 0; }
+        lm_append(x, &b, 1);
+        break;
+    case 2: case 3:
+        lop = "catc_";
+        term = 0;
+        vf_log("catc_ 0x%02x (len %zu mem %zu)", b, len, mem);
+        rc = a_str_catc_(x->s, b);
+        if (rc != b) { LFAIL("return-value", "returned %d for character %d at len %zu", rc, b, len); return 0; }
+        lm_append(x, &b, 1);
+        break;
+    case 4: case 5:
+        term = sel == 4;
+        lop = term ? "catn" : "catn_";
+        l_one[0] = b;
+        vf_log("%s 1 byte 0x%02x (len %zu mem %zu)", lop, b, len, mem);
+        rc = term ? a_str_catn(x->s, l_one, 1) : a_str_catn_(x->s, l_one, 1);
+        if (rc != A_SUCCESS) { LFAIL("unexpected-error", "rc %d at len %zu", rc, len); return 0; }
+        lm_append(x, &b, 1);
+        break;
+    case 6:
+        lop = "cats";
+        if (!b) { b = 0x01; }
+        l_cs[0] = (char)b;
+        l_cs[1] = 0;
+        vf_log("cats 1-character C string 0x%02x (len %zu mem %zu)", b, len, mem);
+        rc = a_str_cats(x->s, l_cs);
+        if (rc != A_SUCCESS) { LFAIL("unexpected-error", "rc %d at len %zu", rc, len); return 0; }
+        lm_append(x, &b, 1);
+        break;
+    default:
+    {
+        static uint32_t const borders[] = {0x80, 0x7FF, 0x800, 0xFFFF, 0x10000, 0x1FFFFF, 0x200000, 0x3FFFFFF, 0x4000000, 0x7FFFFFFF};
+        uint32_t cp = sel == 7 ? (uint32_t)(b & 0x7F) | (uint32_t)!(b & 0x7F) : vf_chance(r, 1, 2) ? borders[vf_below(r, 10)] : (uint32_t)(vf_u64(r) >> (33 + vf_below(r, 24)));
+        lop = "utf_catc";
+        en = a_utf_encode(cp, enc);
+        vf_log("a_utf_catc U+%X (%u bytes) (len %zu mem %zu)", cp, en, len, mem);
+        rc = a_utf_catc(x->s, cp);
+        if (rc != A_SUCCESS) { LFAIL("unexpected-error", "rc %d at len %zu", rc, len); return 0; }
+        lm_append(x, enc, en);
+        break;
+    }
+    }
+    ++vf.evals;
+    return near_pow2(x->n) ? lcheck_full(x, term) : lcheck_step(x, term);
+}
+
+/* ---- one single-byte pop */
+static int l_get1(lmodel *x, vf_rng *r)
+{
+    unsigned sel = (unsigned)vf_below(r, 6);
+    size_t len = x->n;
+    int term = 0, rc, want = len ? (int)(char)x->m[len - 1] : ~0;
+    if (sel < 4)
+    {
+        term = sel < 2;
+        lop = term ? "getc" : "getc_";
+        vf_log("%s (len %zu)", lop, len);
+        rc = term ? a_str_getc(x->s) : a_str_getc_(x->s);
+        if (rc != want) { LFAIL("return-value", "returned %d expected %d at len %zu", rc, want, len); return 0; }
+    }
+    else
+    {
+        size_t got;
+        term = sel == 4;
+        lop = term ? "getn" : "getn_";
+        l_one[0] = (unsigned char)~(len ? x->m[len - 1] : 0);
+        vf_log("%s nbyte=1 (len %zu)", lop, len);
+        got = term ? a_str_getn(x->s, l_one, 1) : a_str_getn_(x->s, l_one, 1);
+        if (got != (len ? 1u : 0u)) { LFAIL("return-value", "returned %zu for nbyte 1 at len %zu", got, len); return 0; }
+        if (len && l_one[0] != x->m[len - 1]) { LFAIL("popped-bytes", "popped 0x%02x, model tail 0x%02x at len %zu", l_one[0], x->m[len - 1], len); return 0; }
+    }
+    ++vf.evals;
+    if (len) { --x->n; }
+    else { term = 0; }
+    return near_pow2(x->n) ? lcheck_full(x, term) : lcheck_step(x, term);
+}
+
+/* ---- block append: 0 catn 1 catn_ 2 cats 3 cats_ 4 cat 5 cat_ (4/5 go through the second object y) */
+static int l_block(lmodel *x, lmodel *y, size_t n, int form)
+{
+    static char const *const names[] = {"catn", "catn_", "cats", "cats_", "cat", "cat_"};
+    int term = !(form & 1), rc, ok;
+    int cstr = form == 2 || form == 3;
+    unsigned char *src = (unsigned char *)malloc(n + (size_t)cstr ? n + (size_t)cstr : 1);
+    lfill(src, n, cstr);
+    if (cstr) { src[n] = 0; }
+    if (n > 4096) { VF_COUNT("large-block-append-over-4096"); }
+    if (n >= 65536) { VF_COUNT("large-block-append-ge-65536"); }
+    if (form >= 4)
+    {
+        /* load the block into y (exact, unterminated), then append y */
+        lop = "catn_";
+        vf_log("second object: drop content (getn_ all), catn_ %zu bytes", n);
+        a_str_getn_(y->s, NULL, SIZE_MAX);
+        y->n = 0;
+        rc = a_str_catn_(y->s, src, n);
+        if (rc != A_SUCCESS) { LFAIL("unexpected-error", "rc %d", rc); free(src); return 0; }
+        lm_append(y, src, n);
+        if (!lcheck_full(y, 0)) { free(src); return 0; }
+    }
+    lop = names[form];
+    vf_log("%s %zu bytes (len %zu mem %zu)", lop, n, x->n, a_str_mem(x->s));
+    switch (form)
+    {
+    case 0: rc = a_str_catn(x->s, src, n); break;
+    case 1: rc = a_str_catn_(x->s, src, n); break;
+    case 2: rc = a_str_cats(x->s, src); break;
+    case 3: rc = a_str_cats_(x->s, src); break;
+    case 4: rc = a_str_cat(x->s, y->s); break;
+    default: rc = a_str_cat_(x->s, y->s); break;
+    }
+    ++vf.evals;
+    if (rc != A_SUCCESS) { LFAIL("unexpected-error", "rc %d", rc); free(src); return 0; }
+    lm_append(x, src, n);
+    free(src);
+    ok = lcheck_full(x, term);
+    if (ok && form >= 4) { lop = names[form]; ok = lcheck_full(y, 0); }
+    return ok;
+}
+
+/* ---- pop a chunk with an exact-size destination */
+static int l_getn(lmodel *x, vf_rng *r, size_t nbyte)
+{
+    int term = vf_chance(r, 1, 2), with_buf = vf_chance(r, 3, 4);
+    size_t want = nbyte < x->n ? nbyte : x->n, got;
+    unsigned char *dst = (unsigned char *)malloc(want ? want : 1);
+    for (size_t i = 0; i < want; ++i) { dst[i] = (unsigned char)~x->m[x->n - want + i]; } /* every byte must be overwritten by the call */
+    lop = term ? "getn" : "getn_";
+    vf_log("%s nbyte=%zu buf=%d (len %zu)", lop, nbyte, with_buf, x->n);
+    if (want > 4096) { VF_COUNT("large-getn-chunk-over-4096"); }
+    if (want >= 65536) { VF_COUNT("large-getn-chunk-ge-65536"); }
+    got = term ? a_str_getn(x->s, with_buf ? dst : NULL, nbyte) : a_str_getn_(x->s, with_buf ? dst : NULL, nbyte);
+    ++vf.evals;
+    VF_COUNT("large-getn-judged");
+    if (got != want) { LFAIL("return-value", "returned %zu expected %zu", got, want); free(dst); return 0; }
+    if (with_buf && want && memcmp(dst, x->m + x->n - want, want) != 0)
+    {
+        size_t i = 0;
+        while (dst[i] == x->m[x->n - want + i]) { ++i; }
+        LFAIL("popped-bytes", "byte %zu of the %zu copied out is 0x%02x, model tail has 0x%02x", i, want, dst[i], x->m[x->n - want + i]);
+        free(dst);
+        return 0;
+    }
+    free(dst);
+    x->n -= want;
+    return lcheck_full(x, term && want > 0);
+}
+
+/* ---- formatted append producing (about) outlen bytes in ONE call; snprintf with the same format and arguments is the oracle */
+static char *l_cstr(size_t n)
+{
+    char *s = (char *)malloc(n + 1);
+    lfill((unsigned char *)s, n, 1);
+    s[n] = 0;
+    return s;
+}
+#define LFMT_DO(FMT, ...)                                                                                   \
+    do {                                                                                                    \
+        elen = snprintf(NULL, 0, FMT, __VA_ARGS__);                                                         \
+        if (elen >= 0)                                                                                      \
+        {                                                                                                   \
+            expect = (char *)malloc((size_t)elen + 1);                                                      \
+            snprintf(expect, (size_t)elen + 1, FMT, __VA_ARGS__);                                           \
+            lop = use_v ? "catv" : "catf";                                                                  \
+            vf_log("%s fmt=\"%s\" %s -> %d bytes (len %zu mem %zu spare %zu)", lop, FMT, desc, elen, x->n, mem, spare); \
+            res = use_v ? catv_wrap(x->s, FMT, __VA_ARGS__) : a_str_catf(x->s, FMT, __VA_ARGS__);           \
+        }                                                                                                   \
+    } while (0)
+static int l_fmt(lmodel *x, vf_rng *r, size_t outlen)
+{
+    static char const *const words[] = {"", "x", "ab", "liba", "~!@#$"};
+    int kind = (int)vf_below(r, 7), use_v = vf_chance(r, 1, 3), elen = -1, res = 0, ok;
+    size_t mem = a_str_mem(x->s), spare = mem - x->n;
+    char *expect = NULL, *a1 = NULL, *a2 = NULL, desc[160];
+    if (outlen > (size_t)INT_MAX / 2) { return 1; }
+    if ((kind <= 1 && outlen < 1) || (kind == 4 && outlen < 3) || (kind == 5 && outlen < 4) || (kind == 6 && outlen < 12)) { kind = 2; }
+    switch (kind)
+    {
+    case 0: case 1:
+    {
+        char const *w = words[vf_below(r, 5)];
+        if (strlen(w) > outlen) { w = ""; }
+        snprintf(desc, sizeof(desc), "width=%zu arg=\"%s\"", outlen, w);
+        if (kind == 0) { LFMT_DO("%*s", (int)outlen, w); }
+        else { LFMT_DO("%-*s", (int)outlen, w); }
+        break;
+    }
+    case 2:
+        a1 = l_cstr(outlen);
+        snprintf(desc, sizeof(desc), "arg=C string of %zu bytes", outlen);
+        LFMT_DO("%s", a1);
+        break;
+    case 3:
+    {
+        size_t extra = (size_t)vf_below(r, 10);
+        a1 = l_cstr(outlen + extra);
+        snprintf(desc, sizeof(desc), "precision=%zu arg=C string of %zu bytes", outlen, outlen + extra);
+        LFMT_DO("%.*s", (int)outlen, a1);
+        break;
+    }
+    case 4:
+    {
+        size_t l1 = (size_t)vf_below(r, outlen - 2), l2 = outlen - 3 - l1;
+        a1 = l_cstr(l1);
+        a2 = l_cstr(l2);
+        snprintf(desc, sizeof(desc), "args=C strings of %zu and %zu bytes", l1, l2);
+        LFMT_DO("[%s|%s]", a1, a2);
+        break;
+    }
+    case 5:
+    {
+        int v = (int)vf_range(r, -99, 999);
+        snprintf(desc, sizeof(desc), "width=%zu value=%d", outlen, v);
+        LFMT_DO("%0*d", (int)outlen, v);
+        break;
+    }
+    default:
+    {
+        unsigned v = (unsigned)vf_u64(r) >> (int)vf_below(r, 32);
+        int ch = 33 + (int)vf_below(r, 90), head = snprintf(NULL, 0, "%x|", v);
+        a1 = l_cstr(outlen - (size_t)head - 2);
+        snprintf(desc, sizeof(desc), "value=%x arg=C string of %zu bytes char=%d", v, outlen - (size_t)head - 2, ch);
+        LFMT_DO("%x|%s|%c", v, a1, ch);
+        break;
+    }
+    }
+    free(a1);
+    free(a2);
+    if (elen < 0) { free(expect); return 1; }
+    ++vf.evals;
+    VF_COUNT("large-formatted-append-judged");
+    if ((size_t)elen == outlen) { VF_COUNT("large-formatted-append-length-as-planned"); }
+    if (elen > 4096) { VF_COUNT("large-formatted-append-over-4096"); }
+    if (elen > 65536) { VF_COUNT("large-formatted-append-over-65536"); }
+    if (elen > 4096 && (size_t)elen + 1 <= spare) { VF_COUNT("large-formatted-one-pass-over-4096"); }
+    if (elen > 4096 && (size_t)elen + 1 > spare) { VF_COUNT("large-formatted-two-pass-over-4096"); }
+    if (res != elen) { LFAIL("return-value", "returned %d, the C formatter produces %d bytes (%s)", res, elen, desc); free(expect); return 0; }
+    lm_append(x, expect, (size_t)elen);
+    free(expect);
+    ok = lcheck_full(x, elen > 0);
+    return ok;
+}
+
+/* =============================================================================== scenarios */
+
+/* 0: grow from empty through every 2^k-2..2^k+2 by single-byte calls, bouncing back over each boundary once */
+static int sc_single(vf_rng *r)
+{
+    lmodel X;
+    int alive = 1;
+    size_t goal = 65537 + 8 + (size_t)vf_below(r, 200), bounced = 0;
+    l_new(&X, (int)vf_below(r, 2));
+    vf_log("scenario single-bytes: grow to %zu by catc/catc_/catn(1)/catn_(1)/cats(1)/a_utf_catc; full compare at 2^k-2..2^k+2", goal);
+    run_begin();
+    while (alive && X.n < goal)
+    {
+        size_t n = X.n;
+        /* bounce: at 2^k+2 (k >= 4), once per k, pop 5 bytes (crossing 2^k downward) and grow again */
+        if (n >= 18 && n > bounced && ((n - 2) & (n - 3)) == 0)
+        {
+            bounced = n;
+            for (int j = 0; j < 5 && alive; ++j) { alive = l_get1(&X, r); }
+            if (n >= 256) { VF_COUNT("large-pow2-boundary-crossed-downward-by-single-pops"); }
+            continue;
+        }
+        if (vf_chance(r, 1, 96))
+        {
+            size_t want = n + (size_t)vf_below(r, 300);
+            lop = "setm";
+            vf_log("setm %zu (len %zu mem %zu)", want, n, a_str_mem(X.s));
+            if (a_str_setm(X.s, want) != A_SUCCESS) { LFAIL("unexpected-error", "setm(%zu) failed", want); alive = 0; break; }
+            if (a_str_mem(X.s) < want) { LFAIL("capacity", "mem %zu after setm(%zu)", a_str_mem(X.s), want); alive = 0; break; }
+            ++vf.evals;
+            alive = lcheck_full(&X, 0);
+            continue;
+        }
+        /* only 1-byte appends close to a power of two so that every length 2^k-2..2^k+2 is visited */
+        alive = l_cat1(&X, r, !near_pow2(n) && !near_pow2(n + 3) && !near_pow2(n + 7));
+        if (alive && X.n >= 256 && near_pow2(X.n)) { VF_COUNT("large-pow2-window-length-visited-by-single-appends"); }
+        run_tick(&X, "single-byte/code-point appends");
+    }
+    /* thorough: single-byte windows around 2^17 .. 2^20 (block jumps in between) */
+    for (int k = 17; alive && k <= l_kmax; ++k)
+    {
+        size_t lo = ((size_t)1 << k) - 6, hi = ((size_t)1 << k) + 6;
+        lmodel Y;
+        l_new(&Y, 0);
+        alive = l_block(&X, &Y, lo - X.n, (int)vf_below(r, 6));
+        l_die(&Y, alive);
+        run_begin();
+        while (alive && X.n < hi)
+        {
+            alive = l_cat1(&X, r, 0);
+            if (alive && near_pow2(X.n)) { VF_COUNT("large-pow2-window-length-visited-by-single-appends"); }
+        }
+        for (int j = 0; j < 9 && alive; ++j) { alive = l_get1(&X, r); }
+        while (alive && X.n < hi) { alive = l_cat1(&X, r, 0); }
+    }
+    if (alive) { alive = lcheck_full(&X, 0); }
+    l_die(&X, alive);
+    return alive;
+}
+
+/* 1: grow by blocks; style 0 lands on every 2^k+d (d=-2..2), style 1 jumps from 2^(k-1)+d' straight to one 2^k+d,
+ *    style 2 starts with ONE block of 2^16+d bytes into a fresh object and continues with random block sizes */
+static int sc_blocks(vf_rng *r, uint64_t li)
+{
+    lmodel X, Y;
+    int alive = 1, style = (int)(li / L_NSCEN % 3);
+    l_new(&X, (int)vf_below(r, 2));
+    l_new(&Y, (int)vf_below(r, 2));
+    vf_log("scenario blocks style %d up to 2^%d", style, l_kmax);
+    if (style == 2)
+    {
+        size_t first = 65536 + (size_t)vf_range(r, -2, 2), lim = first + ((size_t)1 << (l_kmax - 1));
+        alive = l_block(&X, &Y, first, (int)vf_below(r, 4));
+        for (int ops = 0; alive && X.n < lim && ops < 160; ++ops) /* bounded: the pops below can outrun the appends */
+        {
+            size_t n = vf_chance(r, 1, 4) ? (size_t)vf_below(r, 16) : (size_t)vf_below(r, (size_t)1 << (3 + vf_below(r, (uint64_t)l_kmax - 5)));
+            if (X.n + n > lim + 64) { n = lim - X.n; }
+            alive = l_block(&X, &Y, n, (int)vf_below(r, 6));
+            if (alive && vf_chance(r, 1, 8)) { alive = l_getn(&X, r, (size_t)vf_below(r, (X.n < 6000 ? X.n : 6000) + 2)); }
+        }
+    }
+    else
+    {
+        for (int k = 3; alive && k <= l_kmax; ++k)
+        {
+            int d0 = (int)vf_range(r, -2, 2);
+            for (int d = -2; alive && d <= 2; ++d)
+            {
+                size_t target = ((size_t)1 << k) + (size_t)(style == 1 ? d0 : d);
+                if (target < X.n) { continue; }
+                alive = l_block(&X, &Y, target - X.n, (int)vf_below(r, 6));
+                if (alive && target >= 256) { VF_COUNT("large-pow2-window-length-reached-by-block"); }
+                if (style == 1) { break; }
+            }
+            if (alive && vf_chance(r, 1, 6))
+            {
+                /* fall back below the boundary by one chunk and come back */
+                alive = l_getn(&X, r, 1 + (size_t)vf_below(r, X.n));
+            }
+        }
+    }
+    l_die(&X, alive);
+    l_die(&Y, alive);
+    return alive;
+}
+
+/* 2: formatted appends whose RESULT length lands on 2^k+d for every k (the append itself is ~2^(k-1) bytes: mostly the
+ *    two-pass path because a_str keeps at most 8 spare bytes) */
+static int sc_fmt_windows(vf_rng *r)
+{
+    lmodel X;
+    int alive = 1;
+    l_new(&X, (int)vf_below(r, 2));
+    vf_log("scenario formatted appends onto lengths 2^k+d, k <= %d", l_kmax);
+    for (int k = 3; alive && k <= l_kmax; ++k)
+    {
+        int all = k >= l_kmax - 1 || vf_chance(r, 1, 3), d0 = (int)vf_range(r, -2, 2);
+        for (int d = -2; alive && d <= 2; ++d)
+        {
+            size_t target = ((size_t)1 << k) + (size_t)(all ? d : d0);
+            if (target >= X.n)
+            {
+                alive = l_fmt(&X, r, target - X.n);
+                if (alive && X.n == target && target >= 256) { VF_COUNT("large-pow2-window-length-reached-by-formatted-append"); }
+            }
+            if (!all) { break; }
+        }
+    }
+    l_die(&X, alive);
+    return alive;
+}
+
+/* 3: formatted appends > 4096 and > 65536 bytes in one call measured against a pre-reserved spare capacity:
+ *    spare-2, spare-1 fit in the first vsnprintf pass; spare, spare+1, spare+2 need the second pass; plus a fresh
+ *    object (null storage) and an exactly full object (zero spare) receiving a huge output */
+static int sc_fmt_spare(vf_rng *r)
+{
+    static size_t const base[] = {4096, 4097, 4104, 8192, 12289, 32768, 65535, 65536, 65537, 65544, 70001, 131072};
+    lmodel X;
+    int alive = 1, rounds = vf.tier ? 22 : 12;
+    size_t cap = ((size_t)1 << l_kmax) + 4096;
+    l_new(&X, (int)vf_below(r, 2));
+    vf_log("scenario formatted appends against a reserved spare capacity");
+    for (int i = 0; alive && i < rounds; ++i)
+    {
+        size_t S = base[vf_below(r, sizeof(base) / sizeof(base[0]))], spare, out;
+        int d = (int)vf_range(r, -2, 2), mode = (int)vf_below(r, 8);
+        if (vf_chance(r, 1, 4)) { S = 4096 + (size_t)vf_below(r, cap - 4096); }
+        if (vf.tier && vf_chance(r, 1, 5)) { S = ((size_t)1 << 20) + (size_t)vf_range(r, -9, 9); }
+        if (mode == 0)
+        {
+            /* fresh object: storage pointer null, capacity 0 */
+            lop = "exit";
+            vf_log("exit (drop the storage: next formatted append starts from a null pointer)");
+            {
+                char *p = a_str_exit(X.s);
+                if (p) { a_alloc(p, 0); }
+            }
+            X.n = 0;
+            alive = lcheck_full(&X, 0) && l_fmt(&X, r, S + (size_t)d);
+            continue;
+        }
+        if (mode == 1)
+        {
+            /* exactly full object: zero spare */
+            size_t pad = (8 - X.n % 8) % 8;
+            lmodel Y;
+            l_new(&Y, 0);
+            alive = l_block(&X, &Y, pad, 1);
+            l_die(&Y, alive);
+            if (!alive) { break; }
+            lop = "setm_";
+            vf_log("setm_ %zu (exact fit; len %zu mem %zu)", X.n, X.n, a_str_mem(X.s));
+            if (a_str_setm_(X.s, X.n) != A_SUCCESS) { LFAIL("unexpected-error", "setm_(%zu) failed", X.n); alive = 0; break; }
+            alive = lcheck_full(&X, 0);
+            if (alive && X.n && a_str_mem(X.s) == X.n) { VF_COUNT("large-formatted-append-into-exactly-full-object"); }
+            if (alive) { alive = l_fmt(&X, r, S + (size_t)d); }
+        }
+        else
+        {
+            size_t want = X.n + S;
+            lop = "setm";
+            vf_log("setm %zu (reserve; len %zu mem %zu)", want, X.n, a_str_mem(X.s));
+            if (a_str_setm(X.s, want) != A_SUCCESS) { LFAIL("unexpected-error", "setm(%zu) failed", want); alive = 0; break; }
+            if (a_str_mem(X.s) < want) { LFAIL("capacity", "mem %zu after setm(%zu)", a_str_mem(X.s), want); alive = 0; break; }
+            alive = lcheck_full(&X, 0);
+            spare = a_str_mem(X.s) - X.n;
+            out = spare + (size_t)d;
+            if (alive) { alive = l_fmt(&X, r, out); }
+        }
+        /* keep the total bounded: drop most of the content now and then (also makes the next append start at a random length) */
+        if (alive && (X.n > cap || vf_chance(r, 1, 3))) { alive = l_getn(&X, r, X.n - (size_t)vf_below(r, X.n < 5000 ? X.n + 1 : 5000)); }
+    }
+    l_die(&X, alive);
+    return alive;
+}
+
+/* 4: shrink and re-grow a long string with setn/setn_/setm/setm_ (exact fit) */
+static int sc_resize(vf_rng *r)
+{
+    lmodel X, Y;
+    int alive, rounds = vf.tier ? 40 : 28;
+    int k0 = 12 + (int)vf_below(r, (uint64_t)l_kmax - 11);
+    size_t L = ((size_t)1 << k0) + (size_t)vf_range(r, -2, 2), lim = ((size_t)1 << l_kmax) + 4096;
+    l_new(&X, (int)vf_below(r, 2));
+    l_new(&Y, 0);
+    vf_log("scenario shrink/re-grow from %zu bytes", L);
+    alive = l_block(&X, &Y, L, (int)vf_below(r, 6));
+    for (int i = 0; alive && i < rounds; ++i)
+    {
+        a_str *s = X.s;
+        size_t mem = a_str_mem(s), nn;
+        int rc;
+        switch ((int)vf_below(r, 10))
+        {
+        case 0: case 1:
+        {
+            /* setn: shrink, re-grow inside the capacity (gap bytes are the caller's to fill), exactly full, out of bounds */
+            int cls = (int)vf_below(r, 7);
+            nn = cls == 0 ? 0 : cls == 1 ? mem : cls == 2 ? mem + 1 : cls == 3 ? SIZE_MAX : cls == 4 ? (size_t)vf_below(r, mem + 1)
+               : cls == 5 ? (X.n > 3 ? ((size_t)1 << vf_below(r, (uint64_t)l_log2(X.n) + 1)) + (size_t)vf_range(r, -1, 1) : 0) : X.n / 2;
+            lop = "setn";
+            vf_log("setn %zu (len %zu mem %zu)", nn, X.n, mem);
+            rc = a_str_setn(s, nn);
+            ++vf.evals;
+            VF_COUNT("large-setn-judged");
+            if ((rc == A_SUCCESS) != (nn <= mem)) { LFAIL("bounds-check", "setn(%zu) with mem %zu returned %d", nn, mem, rc); alive = 0; break; }
+            if (rc == A_SUCCESS)
+            {
+                if (nn > X.n)
+                {
+                    char *p = a_str_ptr(s);
+                    lm_room(&X, nn);
+                    for (size_t j = X.n; j < nn; ++j) { unsigned char v = lbyte(); p[j] = (char)v; X.m[j] = v; }
+                    if (nn - X.n > 4096) { VF_COUNT("large-setn-regrow-over-4096"); }
+                }
+                if (nn + 4096 < X.n && vf_chance(r, 1, 2))
+                {
+                    /* shrink, look, and go back to the old length inside the unchanged capacity */
+                    size_t back = X.n;
+                    char *p = a_str_ptr(s);
+                    X.n = nn;
+                    alive = lcheck_full(&X, 0);
+                    if (!alive) { break; }
+                    vf_log("setn %zu (back to the old length; len %zu mem %zu)", back, X.n, mem);
+                    rc = a_str_setn(s, back);
+                    ++vf.evals;
+                    if (rc != A_SUCCESS) { LFAIL("bounds-check", "setn(%zu) with mem %zu returned %d", back, mem, rc); alive = 0; break; }
+                    for (size_t j = nn; j < back; ++j) { unsigned char v = lbyte(); p[j] = (char)v; X.m[j] = v; }
+                    VF_COUNT("large-setn-regrow-over-4096");
+                    nn = back;
+                }
+                X.n = nn;
+            }
+            alive = lcheck_full(&X, 0);
+            break;
+        }
+        case 2:
+            if (!mem) { break; }
+            nn = vf_chance(r, 1, 3) ? mem - 1 : (size_t)vf_below(r, mem);
+            lop = "setn_";
+            vf_log("setn_ %zu (len %zu mem %zu)", nn, X.n, mem);
+            a_str_setn_(s, nn);
+            ++vf.evals;
+            if (nn > X.n)
+            {
+                char *p = a_str_ptr(s);
+                lm_room(&X, nn);
+                for (size_t j = X.n; j < nn; ++j) { unsigned char v = lbyte(); p[j] = (char)v; X.m[j] = v; }
+            }
+            X.n = nn;
+            alive = lcheck_full(&X, 0);
+            break;
+        case 3: case 4:
+        {
+            /* setm_: exact fit (len == mem when len is a multiple of the pointer size), or a few bytes more */
+            size_t want = X.n + (vf_chance(r, 1, 2) ? 0 : (size_t)vf_below(r, 20));
+            if (vf_chance(r, 1, 3) && X.n % 8)
+            {
+                alive = l_block(&X, &Y, 8 - X.n % 8, 1 + 2 * (int)vf_below(r, 3));
+                if (!alive) { break; }
+                want = X.n;
+            }
+            lop = "setm_";
+            vf_log("setm_ %zu (len %zu mem %zu)", want, X.n, a_str_mem(s));
+            rc = a_str_setm_(s, want);
+            ++vf.evals;
+            if (rc != A_SUCCESS) { LFAIL("unexpected-error", "rc %d", rc); alive = 0; break; }
+            VF_COUNT("large-setm-exact-fit-judged");
+            if (a_str_mem(s) < want) { LFAIL("capacity", "mem %zu after setm_(%zu)", a_str_mem(s), want); alive = 0; break; }
+            alive = lcheck_full(&X, 0);
+            if (alive && X.n >= 4096 && a_str_mem(s) == X.n) { VF_COUNT("large-exactly-full-at-len-ge-4096"); }
+            /* the next call must make room on its own */
+            if (alive)
+            {
+                switch ((int)vf_below(r, 4))
+                {
+                case 0: alive = l_cat1(&X, r, 1); break;
+                case 1: alive = l_fmt(&X, r, (size_t)vf_below(r, 40)); break;
+                case 2: alive = l_block(&X, &Y, (size_t)vf_below(r, 30), (int)vf_below(r, 6)); break;
+                default: break;
+                }
+            }
+            break;
+        }
+        case 5:
+        {
+            /* setm: grows only */
+            size_t want = vf_chance(r, 1, 2) ? (size_t)vf_below(r, mem + 1) : mem + (size_t)vf_below(r, lim > mem ? lim - mem : 1);
+            lop = "setm";
+            vf_log("setm %zu (len %zu mem %zu)", want, X.n, mem);
+            rc = a_str_setm(s, want);
+            ++vf.evals;
+            if (rc != A_SUCCESS) { LFAIL("unexpected-error", "rc %d", rc); alive = 0; break; }
+            if (a_str_mem(s) < want || a_str_mem(s) < mem) { LFAIL("capacity", "mem %zu after setm(%zu), before %zu", a_str_mem(s), want, mem); alive = 0; break; }
+            alive = lcheck_full(&X, 0);
+            break;
+        }
+        case 6:
+            alive = l_getn(&X, r, vf_chance(r, 1, 2) ? (size_t)vf_below(r, X.n + 2) : X.n / 2 + 1);
+            break;
+        case 7: case 8:
+        {
+            /* re-grow by a block onto a power-of-two window */
+            size_t target = ((size_t)1 << (3 + vf_below(r, (uint64_t)l_kmax - 2))) + (size_t)vf_range(r, -2, 2);
+            if (target <= X.n) { target = X.n + (size_t)vf_below(r, 5000); }
+            if (target > lim) { target = lim; }
+            if (target < X.n) { break; }
+            alive = l_block(&X, &Y, target - X.n, (int)vf_below(r, 6));
+            break;
+        }
+        default:
+            alive = l_cat1(&X, r, 1);
+            break;
+        }
+    }
+    l_die(&X, alive);
+    l_die(&Y, alive);
+    return alive;
+}
+
+/* 5: trims of very long runs at both ends */
+static int l_trim(lmodel *x, vf_rng *r, size_t A, size_t C, size_t B)
+{
+    static char const *const sets[] = {"", " ", "x", "abc \t", "\0a", "\x80\xff\x7f", " \t\n\v\f\r"};
+    static size_t const setn[] = {0, 1, 1, 5, 2, 3, 6};
+    static char const *const names[] = {"rtrim", "ltrim", "trim", "rtrim_", "ltrim_", "trim_"};
+    static char const ws[] = " \t\n\v\f\r";
+    int which = (int)vf_below(r, 6), si = (int)vf_below(r, 7), term = which < 3, side = which % 3, rc, loadterm = vf_chance(r, 1, 2);
+    char const *set = sets[si], *mb = setn[si] ? sets[si] : ws;
+    size_t sn = setn[si], nm = sn ? sn : 6, tot = A + C + B, a = 0, b, before;
+    unsigned char *src = (unsigned char *)malloc(tot ? tot : 1);
+    for (size_t i = 0; i < A; ++i) { src[i] = (unsigned char)mb[lbyte() % nm]; }
+    for (size_t i = 0; i < C; ++i)
+    {
+        unsigned char v = lbyte();
+        if (i == 0 || i + 1 == C) { if (ref_trim_set(v, set, sn)) { v = 'Q'; } } /* 'Q' is in none of the sets */
+        else if ((v & 0x1F) == 0x1F) { v = (unsigned char)mb[(v >> 5) % nm]; }
+        src[A + i] = v;
+    }
+    for (size_t i = 0; i < B; ++i) { src[A + C + i] = (unsigned char)mb[lbyte() % nm]; }
+    lop = loadterm ? "catn" : "catn_";
+    vf_log("drop content (getn_ all); %s %zu bytes = %zu set members + %zu core + %zu set members (set#%d)", lop, tot, A, C, B, si);
+    a_str_getn_(x->s, NULL, SIZE_MAX);
+    x->n = 0;
+    rc = loadterm ? a_str_catn(x->s, src, tot) : a_str_catn_(x->s, src, tot);
+    if (rc != A_SUCCESS) { LFAIL("unexpected-error", "rc %d", rc); free(src); return 0; }
+    lm_append(x, src, tot);
+    free(src);
+    if (!lcheck_full(x, loadterm)) { return 0; }
+    lop = names[which];
+    vf_log("%s set#%d (len %zu mem %zu)", lop, si, x->n, a_str_mem(x->s));
+    switch (which)
+    {
+    case 0: a_str_rtrim(x->s, set, sn); break;
+    case 1: a_str_ltrim(x->s, set, sn); break;
+    case 2: a_str_trim(x->s, set, sn); break;
+    case 3: a_str_rtrim_(x->s, set, sn); break;
+    case 4: a_str_ltrim_(x->s, set, sn); break;
+    default: a_str_trim_(x->s, set, sn); break;
+    }
+    ++vf.evals;
+    b = before = x->n;
+    if (side != 1) { while (b > a && ref_trim_set(x->m[b - 1], set, sn)) { --b; } }
+    if (side != 0) { while (a < b && ref_trim_set(x->m[a], set, sn)) { ++a; } }
+    memmove(x->m, x->m + a, b - a);
+    x->n = b - a;
+    VF_COUNT("large-trim-judged");
+    if (a > 4096) { VF_COUNT("large-trim-leading-run-over-4096"); }
+    if (before - b > 4096) { VF_COUNT("large-trim-trailing-run-over-4096"); }
+    if (a >= 65536 || before - b >= 65536) { VF_COUNT("large-trim-run-ge-65536"); }
+    if (a && x->n > 4096) { VF_COUNT("large-trim-moves-over-4096-bytes-to-the-front"); }
+    if (before > 4096 && x->n == 0) { VF_COUNT("large-trim-empties-long-string"); }
+    return lcheck_full(x, term && x->n < before);
+}
+static size_t l_size(vf_rng *r)
+{
+    /* 0, a power of two +- 1 up to 2^kmax, or a random size */
+    switch ((int)vf_below(r, 8))
+    {
+    case 0: return 0;
+    case 1: return (size_t)vf_below(r, 40);
+    case 2: return (size_t)vf_below(r, ((size_t)1 << l_kmax) + 2);
+    case 3: case 4: return ((size_t)1 << (12 + vf_below(r, (uint64_t)l_kmax - 11))) + (size_t)vf_range(r, -1, 1);
+    default: return ((size_t)1 << (3 + vf_below(r, (uint64_t)l_kmax - 2))) + (size_t)vf_range(r, -1, 1);
+    }
+}
+static int sc_trim(vf_rng *r)
+{
+    lmodel X;
+    int alive = 1, rounds = vf.tier ? 14 : 12;
+    l_new(&X, (int)vf_below(r, 2));
+    vf_log("scenario trims of long runs");
+    for (int i = 0; alive && i < rounds; ++i)
+    {
+        size_t A = l_size(r), B = l_size(r), C = vf_chance(r, 1, 5) ? 0 : vf_chance(r, 1, 2) ? 1 + (size_t)vf_below(r, 3000) : l_size(r);
+        if (i == 0) { A = 65536 + (size_t)vf_range(r, -1, 1); C = 4097 + (size_t)vf_below(r, 4000); B = 0; }        /* long leading run, long core to move, core ends the string */
+        if (i == 1) { B = 65536 + (size_t)vf_range(r, -1, 1); A = 0; C = 1 + (size_t)vf_below(r, 3000); }          /* long trailing run only */
+        if (i == 2) { A = 4096 + (size_t)vf_below(r, 9); B = 4096 + (size_t)vf_below(r, 9); C = 70000 + (size_t)vf_below(r, 100); } /* long core, overlapping move by ~4096 */
+        if (i == 3) { A = 1 + (size_t)vf_below(r, 3); B = 0; C = 65536 + (size_t)vf_below(r, 3); }                /* move >= 65536 bytes by 1..3 */
+        if (i == 4) { A = 40000 + (size_t)vf_below(r, 30000); B = 0; C = 0; }                                      /* nothing but members */
+        alive = l_trim(&X, r, A, C, B);
+        if (alive && vf_chance(r, 1, 3)) { alive = l_cat1(&X, r, 1); }
+    }
+    l_die(&X, alive);
+    return alive;
+}
+
+/* 6: drain a long string: chunks landing on every 2^k+d going down, then single pops all the way to empty */
+static int sc_drain(vf_rng *r)
+{
+    lmodel X, Y;
+    int alive;
+    size_t L = ((size_t)1 << l_kmax) + 3 + (size_t)vf_below(r, 5000);
+    l_new(&X, (int)vf_below(r, 2));
+    l_new(&Y, 0);
+    vf_log("scenario drain from %zu bytes", L);
+    alive = l_block(&X, &Y, L, (int)vf_below(r, 6));
+    for (int k = l_kmax; alive && k >= 3; --k)
+    {
+        int all = k >= 15 || vf_chance(r, 1, 2), d0 = (int)vf_range(r, -2, 2);
+        for (int d = 2; alive && d >= -2; --d)
+        {
+            size_t target = ((size_t)1 << k) + (size_t)(all ? d : d0);
+            if (target < X.n)
+            {
+                if (X.n - target == 1 && vf_chance(r, 1, 2)) { alive = l_get1(&X, r); }
+                else { alive = l_getn(&X, r, X.n - target); }
+                if (alive && target >= 256) { VF_COUNT("large-pow2-window-length-reached-by-pop"); }
+            }
+            if (!all) { break; }
+        }
+    }
+    /* over-long requests on the short rest */
+    if (alive) { alive = l_getn(&X, r, vf_chance(r, 1, 2) ? SIZE_MAX : X.n + 1); }
+    if (alive) { alive = l_getn(&X, r, 1 + (size_t)vf_below(r, 100)); }
+    if (alive) { alive = l_get1(&X, r); }
+    /* second half: single pops from 65536+ down to empty */
+    if (alive) { alive = l_block(&X, &Y, 65536 + 3 + (size_t)vf_below(r, 600), (int)vf_below(r, 6)); }
+    run_begin();
+    while (alive && X.n)
+    {
+        if (vf_chance(r, 1, 200)) { alive = l_getn(&X, r, 1 + (size_t)vf_below(r, 3)); }
+        else { alive = l_get1(&X, r); }
+        if (alive && X.n >= 256 && near_pow2(X.n)) { VF_COUNT("large-pow2-window-length-visited-by-single-pops"); }
+        run_tick(&X, "single-byte pops");
+    }
+    if (alive) { alive = l_get1(&X, r); } /* pop from empty: ~0, nothing changes */
+    l_die(&X, alive);
+    l_die(&Y, alive);
+    return alive;
+}
+
+/* 7: swap of a long with a short string; exit (ownership hand-over) of long strings and re-use */
+static int l_exit(lmodel *x)
+{
+    char *p;
+    size_t len = x->n;
+    int had = a_str_ptr(x->s) != NULL, full = had && a_str_len(x->s) == a_str_mem(x->s), ok = 1;
+    lop = "exit";
+    vf_log("exit (len %zu mem %zu)", x->n, a_str_mem(x->s));
+    p = a_str_exit(x->s);
+    ++vf.evals;
+    VF_COUNT("large-exit-judged");
+    if (len >= 4096) { VF_COUNT("large-exit-of-len-ge-4096"); }
+    if (full && len >= 4096) { VF_COUNT("large-exit-exactly-full-len-ge-4096"); }
+    if (had && !p) { LFAIL("returned-null", "exit of an allocated string returned null"); return 0; }
+    if (p)
+    {
+        if (len && memcmp(p, x->m, len) != 0) { LFAIL("handed-over-content", "content of %zu bytes differs from the model", len); ok = 0; }
+        else if (p[len] != 0) { LFAIL("handed-over-not-terminated", "byte after the %zu content bytes is 0x%02x", len, (unsigned char)p[len]); ok = 0; }
+        a_alloc(p, 0);
+    }
+    x->n = 0;
+    if (a_str_ptr(x->s) || a_str_len(x->s) || a_str_mem(x->s)) { LFAIL("object-not-empty-after-exit", "ptr %p len %zu mem %zu", (void *)a_str_ptr(x->s), a_str_len(x->s), a_str_mem(x->s)); return 0; }
+    return ok && lcheck_full(x, 0);
+}
+static int l_swap(lmodel *x, lmodel *y)
+{
+    unsigned char *m = x->m;
+    size_t n = x->n, cap = x->cap;
+    lop = "swap";
+    vf_log("swap (len %zu mem %zu) <-> (len %zu mem %zu)", x->n, a_str_mem(x->s), y->n, a_str_mem(y->s));
+    a_str_swap(x->s, y->s);
+    ++vf.evals;
+    VF_COUNT("large-swap-judged");
+    if ((x->n >= 4096) != (y->n >= 4096)) { VF_COUNT("large-swap-long-with-short"); }
+    x->m = y->m; x->n = y->n; x->cap = y->cap;
+    y->m = m; y->n = n; y->cap = cap;
+    return lcheck_full(x, 0) && lcheck_full(y, 0);
+}
+static int sc_swap_exit(vf_rng *r)
+{
+    lmodel X, Y, Z;
+    int alive, rounds = vf.tier ? 10 : 8;
+    l_new(&X, 1);
+    l_new(&Y, 0);
+    l_new(&Z, 0);
+    vf_log("scenario swap long/short, exit + re-use");
+    alive = 1;
+    for (int i = 0; alive && i < rounds; ++i)
+    {
+        size_t L = ((size_t)1 << (12 + vf_below(r, (uint64_t)l_kmax - 11))) + (size_t)vf_range(r, -2, 2);
+        size_t shortn = vf_chance(r, 1, 3) ? 0 : (size_t)vf_below(r, 24);
+        alive = l_block(&X, &Z, L > X.n ? L - X.n : (size_t)vf_below(r, 9), (int)vf_below(r, 6));
+        if (alive && shortn) { alive = l_block(&Y, &Z, shortn, (int)vf_below(r, 4)); }
+        if (alive) { alive = l_swap(&X, &Y); }
+        /* both must still work as strings with the right capacity: append to each */
+        if (alive) { alive = l_cat1(&X, r, 1) && l_cat1(&Y, r, 1); }
+        if (alive) { alive = l_block(&X, &Z, (size_t)vf_below(r, 6000), (int)vf_below(r, 6)); }
+        if (alive && vf_chance(r, 1, 2)) { alive = l_swap(&Y, &X); }
+        /* hand over the long one; three storage states: terminated, unterminated with spare, exactly full */
+        {
+            lmodel *lg = X.n >= Y.n ? &X : &Y, *sh = lg == &X ? &Y : &X;
+            int st = (int)vf_below(r, 3);
+            if (alive && st == 1) { alive = l_block(lg, &Z, 1 + (size_t)vf_below(r, 5), 1); }
+            if (alive && st == 2)
+            {
+                alive = l_block(lg, &Z, 8 - lg->n % 8, 1);
+                if (alive)
+                {
+                    lop = "setm_";
+                    vf_log("setm_ %zu (exact fit)", lg->n);
+                    if (a_str_setm_(lg->s, lg->n) != A_SUCCESS) { LFAIL("unexpected-error", "setm_(%zu) failed", lg->n); alive = 0; }
+                    else { alive = lcheck_full(lg, 0); }
+                }
+            }
+            if (alive) { alive = l_exit(lg); }
+            /* re-use the emptied object at once */
+            if (alive) { alive = vf_chance(r, 1, 2) ? l_fmt(lg, r, 4097 + (size_t)vf_below(r, 3000)) : l_block(lg, &Z, 4097 + (size_t)vf_below(r, 3000), (int)vf_below(r, 6)); }
+            if (alive && vf_chance(r, 1, 2)) { alive = l_exit(sh); }
+        }
+    }
+    l_die(&X, alive);
+    l_die(&Y, alive);
+    l_die(&Z, alive);
+    return alive;
+}
+
+/* 8: comparisons of long strings: equal, differing only in the last byte, only in length, at one inner position */
+static int l_cmp_all(lmodel *x, lmodel *y, char const *what)
+{
+    int got, want = ref_cmp(x->m, x->n, y->m, y->n), ok = 1;
+    unsigned char *rx = (unsigned char *)malloc(x->n ? x->n : 1), *ry = (unsigned char *)malloc(y->n ? y->n : 1);
+    memcpy(rx, x->m, x->n);
+    memcpy(ry, y->m, y->n);
+    lop = "cmp";
+    vf_log("cmp family: %s (len %zu vs %zu)", what, x->n, y->n);
+    ++vf.evals;
+    VF_COUNT("large-cmp-judged");
+    got = a_str_cmp(x->s, y->s);
+    if (sgn(got) != want) { LFAIL("cmp", "a_str_cmp sign %d expected %d (%s, len %zu vs %zu)", sgn(got), want, what, x->n, y->n); ok = 0; }
+    got = a_str_cmp(y->s, x->s);
+    if (sgn(got) != -want) { LFAIL("cmp", "a_str_cmp (swapped operands) sign %d expected %d (%s, len %zu vs %zu)", sgn(got), -want, what, y->n, x->n); ok = 0; }
+    got = a_str_cmpn(x->s, ry, y->n);
+    if (sgn(got) != want) { LFAIL("cmpn", "a_str_cmpn sign %d expected %d (%s, len %zu vs %zu)", sgn(got), want, what, x->n, y->n); ok = 0; }
+    got = a_str_cmp_(rx, x->n, ry, y->n);
+    if (sgn(got) != want) { LFAIL("cmp_", "a_str_cmp_ sign %d expected %d (%s, len %zu vs %zu)", sgn(got), want, what, x->n, y->n); ok = 0; }
+    {
+        /* C string operand: the bytes of y up to its first NUL */
+        size_t cn = 0;
+        char *cs;
+        while (cn < y->n && y->m[cn]) { ++cn; }
+        cs = (char *)malloc(cn + 1);
+        memcpy(cs, y->m, cn);
+        cs[cn] = 0;
+        got = a_str_cmps(x->s, cs);
+        want = ref_cmp(x->m, x->n, (unsigned char *)cs, cn);
+        if (sgn(got) != want) { LFAIL("cmps", "a_str_cmps sign %d expected %d (%s, len %zu vs %zu)", sgn(got), want, what, x->n, cn); ok = 0; }
+        if (cn >= 4096) { VF_COUNT("large-cmps-c-string-ge-4096"); }
+        free(cs);
+    }
+    free(rx);
+    free(ry);
+    return ok;
+}
+static int sc_cmp(vf_rng *r)
+{
+    lmodel X, Y;
+    int alive = 1;
+    l_new(&X, 0);
+    l_new(&Y, 1);
+    vf_log("scenario comparisons of long strings");
+    for (int k = 3; alive && k <= l_kmax; ++k)
+    {
+        int d0 = (int)vf_range(r, -1, 1), all = k >= 12 && k <= 17;
+        for (int d = -1; alive && d <= 1; ++d)
+        {
+            size_t L = ((size_t)1 << k) + (size_t)(all ? d : d0), pos;
+            int nonzero = vf_chance(r, 1, 2);
+            unsigned char last, other;
+            /* X := L fresh bytes, Y := copy of X */
+            lop = "getn_";
+            vf_log("both objects: drop content (getn_ all)");
+            a_str_getn_(X.s, NULL, SIZE_MAX);
+            a_str_getn_(Y.s, NULL, SIZE_MAX);
+            X.n = Y.n = 0;
+            alive = l_block(&X, &Y, L, nonzero ? 2 + (int)vf_below(r, 2) : (int)vf_below(r, 2));
+            if (!alive) { break; }
+            lop = "cat_";
+            vf_log("second object: cat_ the first (%zu bytes)", X.n);
+            if (a_str_cat_(Y.s, X.s) != A_SUCCESS) { LFAIL("unexpected-error", "cat_ failed"); alive = 0; break; }
+            lm_append(&Y, X.m, X.n);
+            alive = lcheck_full(&Y, 0) && l_cmp_all(&X, &Y, "equal");
+            if (!alive) { break; }
+            /* last byte differs (also across the 0x7F/0x80 signedness line) */
+            last = Y.m[L - 1];
+            other = vf_chance(r, 1, 2) ? (unsigned char)(last ^ 0x80) : (unsigned char)(last + (vf_chance(r, 1, 2) ? 1 : 255));
+            if (nonzero && !other) { other = 0x81; }
+            if (other == last) { other ^= 1; }
+            lop = "catc_";
+            vf_log("second object: getc_, catc_ 0x%02x (was 0x%02x)", other, last);
+            a_str_getc_(Y.s);
+            a_str_catc_(Y.s, other);
+            Y.m[L - 1] = other;
+            alive = lcheck_full(&Y, 0) && l_cmp_all(&X, &Y, "differ only in the last byte");
+            if (alive && L >= 4096) { VF_COUNT("large-cmp-long-differing-only-in-last-byte"); }
+            if (alive && L > 65536) { VF_COUNT("large-cmp-differing-only-in-a-byte-at-index-ge-65536"); }
+            if (!alive) { break; }
+            /* only the length differs: Y one byte shorter, then one byte longer (the extra byte being NUL half of the time) */
+            lop = "getc_";
+            vf_log("second object: getc_ (now a proper prefix)");
+            a_str_getc_(Y.s);
+            --Y.n;
+            alive = lcheck_full(&Y, 0) && l_cmp_all(&X, &Y, "second is the first minus its last byte");
+            if (!alive) { break; }
+            {
+                unsigned char extra = vf_chance(r, 1, 2) ? 0 : lbyte();
+                lop = "catc_";
+                vf_log("second object: catc_ 0x%02x, catc_ 0x%02x (now the first plus one byte)", last, extra);
+                a_str_catc_(Y.s, last);
+                a_str_catc_(Y.s, extra);
+                lm_room(&Y, L + 1);
+                Y.m[L - 1] = last;
+                Y.m[L] = extra;
+                Y.n = L + 1;
+            }
+            alive = lcheck_full(&Y, 0) && l_cmp_all(&X, &Y, "second is the first plus one byte");
+            if (alive && L >= 4096) { VF_COUNT("large-cmp-long-differing-only-in-length"); }
+            if (!alive) { break; }
+            /* one inner byte differs (written through the storage pointer), everything after it equal */
+            pos = vf_chance(r, 1, 3) ? 0 : (size_t)vf_below(r, L);
+            other = (unsigned char)(X.m[pos] ^ (vf_chance(r, 1, 2) ? 0x80 : 0x01));
+            if (nonzero && !other) { other = 0x7E; }
+            vf_log("first object: byte %zu overwritten through a_str_ptr: 0x%02x -> 0x%02x", pos, X.m[pos], other);
+            a_str_ptr(X.s)[pos] = (char)other;
+            X.m[pos] = other;
+            lop = "cmp";
+            alive = lcheck_full(&X, 0) && l_cmp_all(&X, &Y, "one inner byte differs, second one byte longer");
+            if (!all) { break; }
+        }
+    }
+    l_die(&X, alive);
+    l_die(&Y, alive);
+    return alive;
+}
+
+static int is_large_case(uint64_t c)
+{
+    uint64_t st = vf.tier ? LSTRIDE_THOROUGH : LSTRIDE_QUICK;
+    return c % st == st - 1;
+}
+static void large_case(uint64_t c, vf_rng *r)
+{
+    uint64_t li = c / (vf.tier ? LSTRIDE_THOROUGH : LSTRIDE_QUICK);
+    int sc = (int)(li % L_NSCEN), alive;
+    static char const *const scn[L_NSCEN] = {"single-bytes", "blocks", "formatted-onto-2^k", "formatted-vs-reserved-spare", "shrink-regrow", "trim-long-runs", "drain", "swap-exit-reuse", "compare-long"};
+    l_kmax = vf.tier ? 20 : 16;
+    lg_salt = vf_u64(r);
+    lg_ctr = 0;
+    la_install();
+    l_one = (unsigned char *)malloc(1);
+    l_cs = (char *)malloc(2);
+    if (vf_want_sample() && li < L_NSCEN)
+    {
+        vf_sample("large case %" PRIu64 " (scenario %s, lengths through 2^k-2..2^k+2 up to k=%d): heap byte-array model, complete state compared after every structural operation and at 2^k-2..2^k+2 inside single-byte runs; grown allocation regions junk-filled through the a_alloc hook", c, scn[sc], l_kmax);
+    }
+    vf_log("large case: scenario %s, kmax %d", scn[sc], l_kmax);
+    switch (sc)
+    {
+    case 0: alive = sc_single(r); break;
+    case 1: alive = sc_blocks(r, li); break;
+    case 2: alive = sc_fmt_windows(r); break;
+    case 3: alive = sc_fmt_spare(r); break;
+    case 4: alive = sc_resize(r); break;
+    case 5: alive = sc_trim(r); break;
+    case 6: alive = sc_drain(r); break;
+    case 7: alive = sc_swap_exit(r); break;
+    default: alive = sc_cmp(r); break;
+    }
+    (void)alive;
+    VF_COUNT("large-cases-run");
+    free(l_one);
+    free(l_cs);
+    la_remove();
+}
+
 static uint64_t vf_ncases(int tier) { return tier ? 1500000 : 6000; }
 
 static void vf_case(uint64_t c, vf_rng *r)
 {
-    int nops = 30 + (int)vf_below(r, 40), alive = 1;
+    int nops, alive = 1;
+    if (is_large_case(c)) { large_case(c, r); return; }
+    nops = 30 + (int)vf_below(r, 40);
     for (int k = 0; k < 2; ++k)
     {
         if ((c >> 1 ^ (uint64_t)k) & 1)
